@@ -1,7 +1,8 @@
 (* Connect paths of the pools split into micro-steps and interleaved (Lib/Interleave.v) with the connection's read
    goroutine that delivers the close event:
      multiplex  poolMultiplex.init (placeholder already stored by CheckAndInit):  lock / dial / store / unlock
-     ping-pong  GetActiveClient, no idle client:  lock, check, unlock / dial (newActiveClient) / totalClientCount.Inc
+     ping-pong  GetActiveClient, no idle client:  lock, check, totalClientCount.Inc, unlock / dial (newActiveClient)
+                (before the repair: lock, check, unlock / dial / totalClientCount.Inc)
      http/1     getAvailableClient, no idle client: lock, totalClientCount+1, unlock / dial (newActiveClient)
    against   the close event: connection closed at the network level (only possible once the dial succeeded), then the
              pool's handler under clientMux (multiplex: delete the slot entry if it is this client; ping-pong/http:
@@ -47,10 +48,13 @@ Definition mx_init_prog (dial_locked : bool) : list instr :=
 Definition mx_event_prog : list instr := [IEvClose; ILock; IEvHandleMx; IUnlock].
 Definition mx_init_cfg (dial_locked : bool) : icfg := ([mx_init_prog dial_locked; mx_event_prog], mkISh false false false 1%nat 0 false).
 
-Definition pp_connect_prog : list instr := [ILock; IUnlock; IDial; IIncTotal].
+(* ping-pong GetActiveClient: is totalClientCount incremented inside the critical section that tested it against
+   max_connections (READ FROM THE SOURCE: poolinit_src_pp_count_locked; before the repair it was incremented after the dial) *)
+Definition pp_connect_prog (count_locked : bool) : list instr :=
+  if count_locked then [ILock; IIncTotal; IUnlock; IDial] else [ILock; IUnlock; IDial; IIncTotal].
 Definition http_connect_prog : list instr := [ILock; IIncTotal; IUnlock; IDial].
 Definition count_event_prog : list instr := [IEvClose; ILock; IEvHandleCount; IUnlock].
-Definition pp_connect_cfg : icfg := ([pp_connect_prog; count_event_prog], mkISh false false false 0%nat 0 false).
+Definition pp_connect_cfg (count_locked : bool) : icfg := ([pp_connect_prog count_locked; count_event_prog], mkISh false false false 0%nat 0 false).
 Definition http_connect_cfg : icfg := ([http_connect_prog; count_event_prog], mkISh false false false 0%nat 0 false).
 
 Definition irun (sched : list nat) (c : icfg) : icfg := Interleave.run istep sched c.
